@@ -220,4 +220,21 @@ def rule_d(ctx):
     return r
 
 
-RULES = [rule_a, rule_b, rule_c, rule_d]
+
+def rule_e(ctx):
+    r = RuleResult("C14-e", "to-upper-case / to-lower-case convert ASCII letters only (documented): they use the ASCII case operations, never the Unicode "
+                   "str::to_uppercase / to_lowercase (which also change the length, e.g. ß -> SS)")
+    prog = ctx.prog()
+    for fn, good, bad in (("to_upper_case", ("make_ascii_uppercase", "to_ascii_uppercase"), ("to_uppercase", "to_lowercase")),
+                          ("to_lower_case", ("make_ascii_lowercase", "to_ascii_lowercase"), ("to_uppercase", "to_lowercase"))):
+        b = prog.one("builtin::functions::string::" + fn)
+        names = [(c.callee or "").rsplit("::", 1)[-1] for c in b.calls()]
+        key = "%s|ascii-only" % fn
+        if any(g in names for g in good) and not any(x in names for x in bad):
+            r.ok(key)
+        else:
+            r.violate(key, "%s applies %s: non-ASCII letters are converted (and `ß` becomes `SS`), although Sass converts ASCII letters only" % (fn, [n for n in names if n in bad] or "no ASCII case operation"), b.loc())
+    return r
+
+
+RULES = [rule_a, rule_b, rule_c, rule_d, rule_e]
